@@ -12,7 +12,7 @@ ORACLE_RULE = ("C09: every shipped formula indicator (26 kinds, rotating) x dege
 ASSUMPTIONS = ["Supertrend's long/short fields are exempt from the no-gap clause: exactly one of them is set by design (C10 checks that)",
                "Counter is exercised on input_value='volume', count_value=0; the other indicators on their default price inputs",
                "TZ=UTC for the timeframe families"]
-PARTIAL = 'exact ordered field: every division/sqrt is guarded; the nine field-reading leaf kinds never raise on any raw stream; composite series and IEEE overflow/NaN outside (C09_FULL); open finding: ROC on a zero reference input'
+PARTIAL = "exact ordered field for 'denominator is not 0' (IEEE overflow/NaN outside). Proved: every division/sqrt guarded per call; and for EVERY composite and leaf kind (ATR, RSI, KC, STDEV, BBANDS, Supertrend, MACD, STOCH, TSI, ADX, HMA, VWAP, Donchian, HighestLowest, Aroon, Counter, STDEVTHRES, SMA, EMA, RMA, WMA, VWMA, HLA, TR, OBV): X_never_raises - the batch run and every append schedule return on every raw stream, on the base timeframe, a collapsing timeframe and with gap filling - and X_no_gaps - every output field is None exactly below its warm-up index and a number from it on. Open (C09_FULL): inputs that are other indicators' readings; Heikin-Ashi / lifespan managers at this level; Amorph (C16); ROC with a zero reference input is an open known finding"
 
 
 def oracle(ctx):
